@@ -743,7 +743,40 @@ def httpproxy_constants(out):
     out.append("def httpTunnelBeforeMethod : Bool := true")
 
 
-SECTIONS = {"Frame": frame_constants, "Config": config_constants, "Socks": socks_constants,
+def dispatch_constants(out):
+    # C01 (glue): which handler `handle_remote` (penguin/src/client/handle_remote/mod.rs) starts for which
+    # remote: the arms of `match (&remote.local_addr, &remote.remote_addr, remote.protocol)` in source order
+    # (first match wins), each with the handler it calls and the listener constructor it passes
+    def lean_str(t):
+        return '"' + t.replace("\\", "\\\\").replace('"', '\\"') + '"'
+    src = strip_comments(read("penguin/src/client/handle_remote/mod.rs"))
+    m = re.search(r"async fn handle_remote\b.*?\{(.*?)\n\}\n", src, re.S)
+    if not m:
+        raise Broken("handle_remote/mod.rs: fn handle_remote not found")
+    body = m.group(1)
+    if len(re.findall(r"match \(&remote\.local_addr, &remote\.remote_addr, remote\.protocol\) \{", body)) != 1:
+        raise Broken("handle_remote: the match on (local_addr, remote_addr, protocol) not found exactly once")
+    arms = re.findall(r"^        \((LocalSpec::[^\n]*?)\) => \{(.*?)^        \}", body, re.M | re.S)
+    if len(arms) < 10:
+        raise Broken(f"handle_remote: could not list the arms of the dispatch match (found {len(arms)})")
+    rows = []
+    for pat, blk in arms:
+        pat = re.sub(r"\s+", " ", pat.strip())
+        blk1 = re.sub(r"\s+", " ", blk.strip())
+        if blk1.startswith("unreachable!"):
+            rows.append((pat, "unreachable", ""))
+            continue
+        hm = re.match(r"(handle_\w+)\((.*)\)\.await$", blk1)
+        if not hm:
+            raise Broken(f"handle_remote: arm `{pat}` does not end in one handler call: {blk1[:80]}")
+        args = hm.group(2)
+        lm = re.match(r"(bind_tcp|bind_uds|ReusableListener::new_stdio)\(", args)
+        rows.append((pat, hm.group(1), (lm.group(1) if lm else "") + "|" + re.sub(r"(bind_tcp|bind_uds)\([^)]*\)\.await\?|ReusableListener::new_stdio\(\)", "L", args)))
+    out.append("def dispatchArms : List (String × String × String) := [" + ", ".join(
+        "(" + lean_str(a) + ", " + lean_str(b) + ", " + lean_str(c) + ")" for a, b, c in rows) + "]")
+
+
+SECTIONS = {"Dispatch": dispatch_constants, "Frame": frame_constants, "Config": config_constants, "Socks": socks_constants,
             "ClientReq": clientreq_constants,
             "Client": client_constants, "Server": server_constants, "Tls": tls_constants,
             "UdpMap": udpmap_constants,
